@@ -29,6 +29,15 @@ WALLCAP = {'quick': 420, 'thorough': 2700}
 EXCLUDE_FIRST_SUCCESS = os.environ.get('C11_NO_EXCLUDE', '') == ''      # set C11_NO_EXCLUDE=1 once the finding is fixed in the tree
 F_FIRST = 'C11-schema-first-success'
 F_BACKREF = 'C11-backref-escape'
+F_FIXEDEND = 'C11-fixedstring-endpos'
+
+def literal_only(n):
+    """the non-schema compiler turns such a pattern into ONE string/char operation ("fixed string only" Boyer-Moore path)"""
+    k = n[0]
+    if k in ('lit', 'empty'): return True
+    if k == 'seq': return all(literal_only(c) for c in n[1])
+    if k == 'rep': return n[2] == n[3] and literal_only(n[1])
+    return False
 SENTINELS = [';', '#', ',', '€', 'Z']
 
 def u16len(s): return len(s.encode('utf-16-le')) // 2
@@ -43,9 +52,11 @@ def call(ex, kind, pattern, opts, subjects, mode='', wins=None, rep=None):
     if wins is not None: req['win'] = '\n'.join('-' if w is None else '%d,%d' % tuple(w) for w in wins)
     if rep is not None: req['rep'] = xv.esc(rep)
     try:
-        resp = ex.request(req, timeout=40)
+        resp = ex.request(req, timeout=int(os.environ.get('C11_TIMEOUT', '40')))
     except xv.ExecutorDied as e:
-        if e.rc == -9 and 'ERROR: ' not in e.stderr: raise Watchdog()
+        if e.rc == -9 and 'ERROR: ' not in e.stderr:
+            if os.environ.get('C11_DEBUG'): print('WATCHDOG', kind, repr(pattern), opts, mode, len(subjects), flush=True)
+            raise Watchdog()
         raise
     lines = resp.split('\n')
     if lines and lines[-1] == '': lines.pop()
@@ -326,6 +337,7 @@ def check_search(c, ast, lang_schema, ex, st_, subjects, nshort):
         res[o] = v
     st_.extra['search_verdicts'] = st_.extra.get('search_verdicts', 0) + len(subset)
     base = res[sopts]
+    litonly = literal_only(ast)
     for s, f, got in zip(subset, exp, base):
         if f == 'drop': continue
         mk = lambda detail, expected: PropertyFailure({'kind': 'search', 'pattern': text, 'opts': sopts, 'subject': s, 'expected': expected}, detail)
@@ -334,7 +346,10 @@ def check_search(c, ast, lang_schema, ex, st_, subjects, nshort):
         if f is not None:
             g0 = got.split('\t')[1].split(';')[0]; a, b = [int(x) for x in g0.split(',')]
             us = u16len(s[:f[0]]); ends = sorted(u16len(s[:e]) for e in f[1])
-            if a != us or b not in ends:
+            if litonly and [us + u16len(text)] != ends:
+                st_.excluded_known[F_FIXEDEND] += 1      # known finding: end = start + length of the pattern SOURCE
+                if a != us: raise mk('non-schema pattern %r opts %r subject %r: match reported at %d..%d; leftmost start is %d' % (text, sopts, s, a, b, us), [f[0], sorted(f[1])])
+            elif a != us or b not in ends:
                 raise mk('non-schema pattern %r opts %r subject %r: match reported at %d..%d; leftmost start is %d and the possible ends are %r' % (text, sopts, s, a, b, us, ends), [f[0], sorted(f[1])])
     for o, v in res.items():
         for s, x, y in zip(subset, base, v):
@@ -345,7 +360,8 @@ def check_search(c, ast, lang_schema, ex, st_, subjects, nshort):
     # tokenize / replace / allMatches consistency (pattern must not match the empty string: documented RuntimeException otherwise)
     nullable = lang.accepting(lang.start)
     try:
-        hA, am = call(ex, 'allmatches', text, sopts, subset)
+        # allMatches() itself never terminates on a pattern that matches the empty string (tokenize/replace guard against it)
+        hA, am = call(ex, 'allmatches', text, sopts, subset) if not nullable else ('C\tOK', [''] * len(subset))
         hT, tk = call(ex, 'tokenize', text, sopts, subset)
         hR, rp = call(ex, 'replace', text, sopts, subset, rep=c['repl'])
         hP, pm = call(ex, 'regex', text, sopts, subset, 'rp')
@@ -372,6 +388,7 @@ def check_search(c, ast, lang_schema, ex, st_, subjects, nshort):
             prev = y
         if spans:
             g0 = p.split('\t')[1].split(';')[0] if p[0] == '1' else None
+            if litonly and g0 is not None: g0 = '%s,%d' % (g0.split(',')[0], spans[0][1])      # finding C11-fixedstring-endpos: end not compared
             if g0 != '%d,%d' % spans[0]: raise mk('pattern %r subject %r: first allMatches span %r but matches() reports %r' % (text, s, spans[0], p))
         elif p[0] == '1': raise mk('pattern %r subject %r: matches() is true but allMatches found nothing' % (text, s))
         n = u16len(s); cuts = [0] + [v for sp in spans for v in sp] + [n]
@@ -384,7 +401,7 @@ def check_search(c, ast, lang_schema, ex, st_, subjects, nshort):
 
 # ------------------------------------------------------------------------------------------------------------------
 def worker(ctx):
-    ex = ctx.executor('xv_regex')
+    ex = ctx.executor('xv_regex', restart_every=40000)
     st_ = ctx.stats
     bad = rm.selftest()
     if bad: raise RuntimeError('regexmodel selftest failed: %r' % (bad,))
